@@ -37,6 +37,13 @@ fn main() {
             let size: usize = if args.len() > 5 { args[5].parse().expect("size") } else { 0 };
             gen::generate(profile, seed, n, size)
         }
+        "bigexport" => {
+            // C19 on trees too large for the model runner: capacity of the exported vector against the
+            // number of stored entries, three insertion orders; sizes n, n/10, n/100, ...
+            let n: usize = args[2].parse().expect("n");
+            exec::big_export(n);
+            return;
+        }
         "replay" => {
             let f = std::fs::File::open(&args[2]).expect("open script");
             ops::parse_script(std::io::BufReader::new(f).lines().map(|l| l.unwrap()))
